@@ -39,7 +39,10 @@ func corruptions(c pcell) [][2]string {
 		}
 	}
 	if c.Kind == "json" {
-		out = append(out, [2]string{"malformed-json", "{\"firstName\":"}, [2]string{"json-wrong-type", "{\"firstName\":5,\"role\":[]}"})
+		out = append(out, [2]string{"malformed-json", "{\"firstName\":"}, [2]string{"json-wrong-type", "{\"firstName\":5,\"role\":[]}"},
+			// a complete value followed by more text: one value is not the whole parameter
+			[2]string{"json-trailing-text", "{\"firstName\":\"a\",\"role\":\"b\"}]]x"}, [2]string{"json-two-values", "{\"firstName\":\"a\",\"role\":\"b\"}{\"firstName\":\"c\",\"role\":\"d\"}"},
+			[2]string{"json-trailing-brace", "{\"firstName\":\"a\",\"role\":\"b\"}}"})
 	}
 	return out
 }
@@ -195,5 +198,5 @@ func runC06(r *Report, rng *rand.Rand, thorough bool) {
 	}
 	r.Exhaustive = thorough
 	runC06Combine(r, rng, thorough)
-	r.Rule = "function level: CombineOperationParameters on random path-level / operation-level parameter lists vs the model; every operation of the parameter family (one per cell of location x style x explode x shape x required x schema/JSON content) x {required parameter missing, optional parameter missing (must be accepted), wrong type, integer overflow, bad date / date-time / uuid, wrong array element, malformed JSON content, wrong label/matrix prefix, duplicated single-valued header} x 7 frameworks x {default error path, configured error handler}; oracle: zero handler calls and status 400 / error handler invoked for corrupted requests, exactly one handler call for well-formed ones; non-trivial = a corruption or a missing required parameter"
+	r.Rule = "function level: CombineOperationParameters on random path-level / operation-level parameter lists vs the model; every operation of the parameter family (one per cell of location x style x explode x shape x required x schema/JSON content) x {required parameter missing, optional parameter missing (must be accepted), wrong type, integer overflow, bad date / date-time / uuid, wrong array element, malformed JSON content (truncated, wrong member type, a complete value followed by more text), wrong label/matrix prefix, duplicated single-valued header} x 7 frameworks x {default error path, configured error handler}; oracle: zero handler calls and status 400 / error handler invoked for corrupted requests, exactly one handler call for well-formed ones; non-trivial = a corruption or a missing required parameter"
 }
